@@ -191,7 +191,8 @@ def run(prog, tier):
     obs.extend(_changepoint(prog, cp))
     obs.extend(_changepoint_instance(prog, cp, 3))
     if tier == "thorough":
-        obs.extend(_changepoint_instance(prog, cp, 4))
+        for n_k in (4, 5, 6):
+            obs.extend(_changepoint_instance(prog, cp, n_k))
 
     # ---------------------------------------------------------------- composites
     obs.extend(_composite(prog))
